@@ -136,7 +136,7 @@ func init() {
 		Bubble: true,
 		Cases: func(tier string) int {
 			if tier == "thorough" {
-				return 256 + 8000
+				return 256 + 30000
 			}
 
 			return c08QuickSweepCases + 500
